@@ -26,6 +26,7 @@ func TestC07(t *testing.T) {
 	defer run.Finish()
 	if run.Shard == 0 {
 		forwardedContextOverlap(run)
+		queuedBacklog(run)
 	}
 	all := evt.Drivers()
 	n := run.Scale(150, 2500)
